@@ -296,6 +296,15 @@ Section WithNormaliser.
     end.
 End WithNormaliser.
 
+(* ---------- invariant of the encoder (used in the statements) ---------- *)
+(* the byte stream grows four bytes at a time *)
+Inductive quads : list N -> Prop :=
+| Q_nil : quads []
+| Q_cons b3 b2 b1 b0 r : quads r -> quads (b3 :: b2 :: b1 :: b0 :: r).
+
+Definition fse_inv (x : N) (rout : list N) : Prop :=
+  1 <= x /\ x < FSE_STATE_BOUND /\ quads rout /\ (rout <> [] -> FSE_L <= x).
+
 (* a table that gives every symbol of the payload a slot *)
 Definition fse_wf (t : list N) : Prop := sum_list t <= 4096.
 
